@@ -7,6 +7,7 @@ import (
 
 	"golang.org/x/tools/go/ssa"
 
+	"go/types"
 	"gzverify/px"
 )
 
@@ -197,5 +198,176 @@ func c15injectiveNames(c *Ctx) {
 	})
 	if seen == 0 {
 		c.R.Undecided(rule, hashPkg+".(*ConsistentHash).AddWithReplicas#names-seen", "the virtual-node name derivation is recognised", "no hashFunc(repr+index) call on any path")
+	}
+}
+
+// c15ringIdentity (C15.R9, round 8): the ring places a node by lang.Repr(node) — its String() when it has one, else
+// fmt's rendering of the value. "The mapping depends only on the set of nodes" therefore needs, for everything in-tree
+// code adds to a ConsistentHash: (a) the value, in the form it is added (value or pointer), is a fmt.Stringer — a struct
+// without one is rendered with the addresses of the pointers inside it, different in every process; (b) what its String()
+// reads is configuration: the fields it returns are written only where the object is built (a composite literal of the
+// type), never updated afterwards — an identity that changes after Add makes Remove and re-weighting miss the node.
+func c15ringIdentity(c *Ctx) {
+	rule := "C15.R9"
+	stringer := types.NewInterfaceType([]*types.Func{types.NewFunc(0, nil, "String", types.NewSignatureType(nil, nil, nil, nil, types.NewTuple(types.NewVar(0, nil, "", types.Typ[types.String])), false))}, nil)
+	stringer.Complete()
+	// dynamic types of a value handed to Add…: through boxing, and one level through the results of module functions
+	var dynTypes func(v ssa.Value, d int) []types.Type
+	dynTypes = func(v ssa.Value, d int) []types.Type {
+		switch x := v.(type) {
+		case *ssa.MakeInterface:
+			return []types.Type{x.X.Type()}
+		case *ssa.ChangeInterface:
+			return dynTypes(x.X, d)
+		case *ssa.Phi:
+			var out []types.Type
+			for _, e := range x.Edges {
+				out = append(out, dynTypes(e, d)...)
+			}
+			return out
+		case *ssa.Call:
+			cal := x.Call.StaticCallee()
+			if cal == nil || cal.Blocks == nil || d > 2 {
+				return nil
+			}
+			var out []types.Type
+			for _, b := range cal.Blocks {
+				if len(b.Instrs) == 0 {
+					continue
+				}
+				if r, ok := b.Instrs[len(b.Instrs)-1].(*ssa.Return); ok && len(r.Results) >= 1 {
+					out = append(out, dynTypes(r.Results[0], d+1)...)
+				}
+			}
+			return out
+		}
+		if _, isIface := v.Type().Underlying().(*types.Interface); !isIface {
+			return []types.Type{v.Type()}
+		}
+		return nil
+	}
+	sites := 0
+	seen := map[string]bool{}
+	for _, pk := range c.P.Pkgs {
+		rel := strings.TrimPrefix(pk.PkgPath, mod)
+		if rel == "core/hash" {
+			continue
+		}
+		for _, fn := range c.P.AllFuncs(rel) {
+			for _, b := range fn.Blocks {
+				for _, ins := range b.Instrs {
+					call, ok := ins.(ssa.CallInstruction)
+					if !ok {
+						continue
+					}
+					cal := call.Common().StaticCallee()
+					if cal == nil || cal.Signature.Recv() == nil || !strings.HasSuffix(typeString(cal.Signature.Recv().Type()), "core/hash.ConsistentHash") || !strings.HasPrefix(cal.Name(), "Add") || len(call.Common().Args) < 2 {
+						continue
+					}
+					sites++
+					ts := dynTypes(call.Common().Args[1], 0)
+					if len(ts) == 0 {
+						c.R.Undecided(rule, funcDisplay(fn)+"#ring-member", "the dynamic type of what is added to the ring is resolved", "unresolved at "+c.P.Pos(call.Pos()))
+						continue
+					}
+					for _, t := range ts {
+						key := typeString(t)
+						if seen[key] {
+							continue
+						}
+						seen[key] = true
+						name := "ring member " + key
+						text := "what in-tree code adds to a ConsistentHash is a fmt.Stringer in the form it is added, and the fields its String() returns are written only where the object is built"
+						if b, isBasic := t.Underlying().(*types.Basic); isBasic && b.Info()&(types.IsString|types.IsNumeric) != 0 {
+							c.R.Hold(rule, name, text+" (a basic value is its own identity)", 1)
+							continue
+						}
+						if !types.Implements(t, stringer) {
+							c.R.Fail(rule, name, text, c.P.Pos(call.Pos()), "added in "+funcDisplay(fn)+" as "+key+", which has no String() in that form: lang.Repr falls back to fmt's rendering of the value, which prints the addresses of the pointers inside it — two processes (or two rings) built from the same configuration place the node differently", nil)
+							continue
+						}
+						// (b) the fields String() reads
+						ms := types.NewMethodSet(t)
+						sel := ms.Lookup(nil, "String")
+						if sel == nil {
+							for i := 0; i < ms.Len(); i++ {
+								if ms.At(i).Obj().Name() == "String" {
+									sel = ms.At(i)
+								}
+							}
+						}
+						var strFn *ssa.Function
+						if sel != nil {
+							strFn = c.P.SSA.MethodValue(sel)
+						}
+						if strFn == nil || strFn.Blocks == nil {
+							c.R.Undecided(rule, name, text, "String() body not available")
+							continue
+						}
+						fields := map[*types.Var]bool{}
+						var collect func(f *ssa.Function, d int)
+						collect = func(f *ssa.Function, d int) {
+							for _, bb := range f.Blocks {
+								for _, in := range bb.Instrs {
+									switch y := in.(type) {
+									case *ssa.FieldAddr:
+										if pt, ok := y.X.Type().Underlying().(*types.Pointer); ok {
+											if st, ok := pt.Elem().Underlying().(*types.Struct); ok {
+												fields[st.Field(y.Field)] = true
+											}
+										}
+									case *ssa.Field:
+										if st, ok := y.X.Type().Underlying().(*types.Struct); ok {
+											fields[st.Field(y.Field)] = true
+										}
+									}
+								}
+							}
+						}
+						collect(strFn, 0)
+						var writers []string
+						for _, pk2 := range c.P.Pkgs {
+							rel2 := strings.TrimPrefix(pk2.PkgPath, mod)
+							for _, g := range c.P.AllFuncs(rel2) {
+								for _, bb := range g.Blocks {
+									for _, in := range bb.Instrs {
+										st, ok := in.(*ssa.Store)
+										if !ok {
+											continue
+										}
+										fa, ok := st.Addr.(*ssa.FieldAddr)
+										if !ok {
+											continue
+										}
+										pt, ok := fa.X.Type().Underlying().(*types.Pointer)
+										if !ok {
+											continue
+										}
+										stt, ok := pt.Elem().Underlying().(*types.Struct)
+										if !ok || !fields[stt.Field(fa.Field)] {
+											continue
+										}
+										// building the object: the store goes into a fresh allocation of this function (composite literal)
+										if al, isAlloc := fa.X.(*ssa.Alloc); isAlloc && al.Parent() == g {
+											continue
+										}
+										writers = append(writers, fmt.Sprintf("%s writes %s at %s", funcDisplay(g), stt.Field(fa.Field).Name(), c.P.Pos(st.Pos())))
+									}
+								}
+							}
+						}
+						sort.Strings(writers)
+						if len(writers) > 0 {
+							c.R.Fail(rule, name, text, c.P.Pos(strFn.Pos()), "the identity String() returns is updated after the object was built: "+strings.Join(writers, "; ")+" — a node added before that write is placed under one name and looked for (Remove, re-weighting) under another", writers)
+							continue
+						}
+						c.R.Hold(rule, name, text, len(fields)+1)
+					}
+				}
+			}
+		}
+	}
+	if sites < 2 {
+		c.R.Undecided(rule, "module#ring-users", "the in-tree users of ConsistentHash.Add… are recognised", fmt.Sprintf("%d found", sites))
 	}
 }
